@@ -7,15 +7,22 @@ import re
 _cache = {}
 
 
+def _norm(tree):
+    """templates are read in the same expression-level normal form as the program"""
+    from .normal import normalise_template
+    return normalise_template(tree)
+
+
 def _compile(template):
     t = _cache.get(template)
     if t is None:
         s = re.sub(r'\$\$(\w+)', r'__MVX_\1__', template)
         s = re.sub(r'\$(\w+)', r'__MV_\1__', s)
         try:
-            t = ast.parse(s, mode='eval').body
+            t = ast.parse(s, mode='eval')
+            t = _norm(t).body
         except SyntaxError:
-            body = ast.parse(s).body
+            body = _norm(ast.parse(s)).body
             t = body[0] if len(body) == 1 else body
         _cache[template] = t
     return t
